@@ -333,5 +333,8 @@ SUBCHECKS = [
 ]
 
 
+# thorough tier: coverage-guided campaigns (atheris) on the same run_case, see pv/fuzz.py
+FUZZ = [("random-grammars", 8000)]
+
 def subcheck(name):
     return {s.name: s for s in SUBCHECKS}[name]
